@@ -1267,6 +1267,22 @@ func _isContentNone(rule pa.Compound) bool {
 	}
 }
 
+// guardImportCycle returns a fetcher serving [url] only once : a stylesheet
+// importing itself (directly or through other ones) then fails to load
+// instead of recursing for ever.
+func guardImportCycle(urlFetcher utils.UrlFetcher, url string) utils.UrlFetcher {
+	fetched := false
+	return func(target string) (utils.RemoteRessource, error) {
+		if target == url {
+			if fetched {
+				return utils.RemoteRessource{}, fmt.Errorf("cyclic @import of %s", url)
+			}
+			fetched = true
+		}
+		return urlFetcher(target)
+	}
+}
+
 type selectorPageRule struct {
 	pseudoType  string
 	pageType    pageSelector
@@ -1351,7 +1367,7 @@ func preprocessStylesheet(deviceMediaType, baseUrl string, stylesheetRules []pa.
 				}
 				url = utils.UrlJoin(baseUrl, url, false, "@import")
 				if url != "" {
-					_, err := newCSS(utils.InputUrl(url), "", urlFetcher, false,
+					_, err := newCSS(utils.InputUrl(url), "", guardImportCycle(urlFetcher, url), false,
 						deviceMediaType, fontConfig, matcher, pageRules, counterStyle)
 					if err != nil {
 						logger.WarningLogger.Printf("Failed to load stylesheet at %s : %s \n", url, err)
